@@ -661,6 +661,14 @@ def run(ctx):
             if not ok:
                 if sem is None:
                     sem = refuses_when('entropy_hex', sorted(want))
+                    if not sem:
+                        # a validator that judges the number of DECODED bytes (the library's own criterion: blanks between
+                        # hex bytes are not entropy): with the decoded size none of the five, every path must refuse
+                        dl_ = T.len_(X.fromhex(val))
+                        sem = refuses_when('entropy_hex', [T.eq(T.const(n_), dl_) for n_ in (16, 20, 24, 28, 32)])
+                        if sem:
+                            via_decoded = True
+                            ob.note('entropy_hex judges the decoded byte count (decided semantically)')
                 ok = sem
             ob.require(ok, 'entropy_hex accepts a length outside 32/40/48/56/64 hex characters', fi.where)
             if via_decoded:
